@@ -49,3 +49,15 @@ func selfTests(prop string, fns ...func() error) {
 	SelfTests = append(SelfTests, fns...)
 	SelfTestsOf[prop] = append(SelfTestsOf[prop], fns...)
 }
+
+// RunLimit is the wall-clock budget of ONE run in seconds. Every property
+// states what a call returns, so a call that never returns breaks it: the
+// worker ends itself when a single run exceeds this budget, and the driver
+// reports class "hang" only after the same run exceeded it again in two
+// separate processes of its own.
+func (p *Prop) RunLimit() int {
+	if p.HangSecs > 0 {
+		return p.HangSecs
+	}
+	return 30
+}
